@@ -65,6 +65,17 @@ fn main() {
         let _g = root.set_local_parent();
         LocalSpan::add_property(|| { LocalSpan::add_event(Event::new("e")); ("k", "v") });
     });
+    // D10
+    catch("D10 LocalSpan::with_property while a later local-parent scope is open (debug build)", || {
+        let root = Span::root("d10", SpanContext::random());
+        let other = Span::root("d10-other", SpanContext::random());
+        let _g = root.set_local_parent();
+        let a = LocalSpan::enter_with_local_parent("a");
+        let g2 = other.set_local_parent();
+        let a = a.with_property(|| ("k", "v"));
+        drop(g2);
+        drop(a);
+    });
     // D9
     catch("D9 4097 nested local parents (debug build)", || {
         let root = Span::root("d9", SpanContext::random());
